@@ -378,6 +378,28 @@ func main() {
 		}
 	}
 	genA(maxA)
+	if !quick {
+		// four arguments over the arguments that interact (flags with values, help/version, files)
+		all := cliArgs
+		cliArgs = []string{"-out=OUT", "-out", "-name=pkg", "-help", "-version", "-bogus", "valid.grammar", "invalid.grammar", "adir"}
+		maxA = 4
+		var gen4 func(k int)
+		gen4 = func(k int) {
+			if k == 0 {
+				if mine() {
+					lines = append(lines, append([]string{}, cur...))
+				}
+				return
+			}
+			for _, a := range cliArgs {
+				cur = append(cur, a)
+				gen4(k - 1)
+				cur = cur[:len(cur)-1]
+			}
+		}
+		gen4(4)
+		cliArgs = all
+	}
 	cli(r, lines)
 	r.Assume("a panic is caught by recover in the calling goroutine; a call that does not return within 120 s is reported as a hang by a watchdog; the CLI is the binary built from /repo/cmd/emerge at the start of the run")
 	r.Finish()
